@@ -25,6 +25,7 @@ BASE = """CONSTANTS
   UnitW <- %(unitw)s
   BufCap = %(cap)d
   LockStep = %(lock)s
+  MaxUnits = %(units)d
   MaxConns = %(conns)d
   SwapIntervals = %(swap)s
   ForgeEnd = %(forge)s
@@ -42,7 +43,7 @@ ENV_ACTIONS = ["CReq", "CRead", "CClose", "PDial", "PRead", "PFlush", "PTimeout"
 def consts(univ, small=True, lock=False, conns=0, swap=False, forge=False, hold=False, keep=False, partial=502):
     b = lambda x: "TRUE" if x else "FALSE"
     return BASE % dict(univ=univ, unitw="MCUnitWSmall" if small else "MCUnitWReal", cap=4 if small else 65536,
-                       lock=b(lock), conns=conns, swap=b(swap), forge=b(forge), hold=b(hold), keep=b(keep), partial=partial)
+                       lock=b(lock), units=4 if univ == "MCLive" else 9, conns=conns, swap=b(swap), forge=b(forge), hold=b(hold), keep=b(keep), partial=partial)
 
 
 def violated(r):
@@ -211,7 +212,7 @@ def run(ctx):
                       replay={"sub": "probe", "case": None})
         return
     if partial != 502:
-        ctx.log("LEAD: an upstream that closes the connection in the middle of its response header is answered 500, not 502: httpProxyErrorHandler maps io.ErrUnexpectedEOF (and every error that is neither a net.Error nor io.EOF, e.g. a malformed status line) to 500 Internal Server Error although the fault is the upstream's (502 Bad Gateway by its own comment)")
+        ctx.log("LEAD: an upstream that closes the connection in the middle of its response header is answered 500, not 502: the transport reports 'net/http: HTTP/1.x transport connection broken: unexpected EOF' (a wrapped io.ErrUnexpectedEOF), and httpProxyErrorHandler maps every error that is neither a net.Error nor identical to io.EOF (also e.g. a malformed status line) to 500 Internal Server Error although the fault is the upstream's (502 Bad Gateway by the handler's own comment)")
 
     # ---- 1. generator + model checking in parallel
     sink = os.path.join(ctx.tmp, "x06.hist")
@@ -224,9 +225,13 @@ def run(ctx):
     bg_live = Bg(ctx.tlc, "Streaming_MC", cfg_text="SPECIFICATION Spec\n" + consts("MCLive", lock=True, partial=502) + "INVARIANT TypeOK\n" + LIVE,
                  workers=4, timeout=800)
 
+    time.sleep(0.3)
+    bgs_wrong = start_wrong(ctx, thorough)
     r = bg_gen.get()
     if not clean(ctx, r, "Streaming_Gen"):
         bg_safe.get(); bg_live.get()
+        for w in bgs_wrong:
+            w[2].get()
         return
     hs = load_histories(sink)
     ctx.log("Gen: %d lock-step histories (%d printed, %d transitions, %.0fs)" % (len(hs), sum(1 for _ in open(sink)), r.generated, r.wall))
@@ -239,29 +244,40 @@ def run(ctx):
     if thorough:
         chosen, ncls = hs, len({(sig(h), eff(h), h["sc"]["fr"], h["sc"]["sse"]) for h in hs})
     else:
-        chosen, ncls = select(ctx, hs, 3000, 2)
+        chosen, ncls = select(ctx, hs, 5000, 2)
     inp = os.path.join(ctx.tmp, "x06.in")
     vf.write_ndjson(inp, chosen)
     bg_rep = Bg(run_go, ctx, "TestVerifX06Replay", inp, "X06 replay", timeout=ctx.pick(300, 800))
     time.sleep(0.3)
+    bg_rep2 = None
 
     # ---- 3. C->S: free-running exchanges, recorded
     free, _ = select(ctx, [h for h in hs if len(h["steps"]) >= 3], ctx.pick(700, 4000), 1)
     finp = os.path.join(ctx.tmp, "x06.free")
     vf.write_ndjson(finp, free)
     tpath = os.path.join(ctx.tmp, "x06.trace")
+    bg_free = Bg(run_go, ctx, "TestVerifX06Free", finp, "X06 free-running exchanges", env={"VERIF_TRACE_OUT": tpath, "VERIF_WORKERS": 6},
+                 timeout=ctx.pick(300, 600))
 
     # model checking results while the Go runs are busy
-    ok_models = models(ctx, bg_safe, bg_live, thorough)
+    ok_models = models(ctx, bg_safe, bg_live, bgs_wrong, thorough)
 
+    gf = bg_free.get()
+    bg_val = Bg(validate, ctx, tpath, partial, "traces") if gf is not None and gf.summary and gf.summary.get("traces") else None
     g = bg_rep.get()
-    gf = run_go(ctx, "TestVerifX06Free", finp, "X06 free-running exchanges", env={"VERIF_TRACE_OUT": tpath}, timeout=ctx.pick(300, 600))
+    if thorough and g is not None:
+        # second pass: every history once more over another front / the other kind of upstream
+        bg_rep2 = Bg(run_go, ctx, "TestVerifX06Replay", inp, "X06 replay (second pass)", env={"VERIF_X06_ROT": 1}, timeout=800)
     if g is None or gf is None or not ok_models:
+        if bg_val:
+            bg_val.get()
+        if bg_rep2:
+            bg_rep2.get()
         return
     s = g.summary
-    ctx.log("replay: %d histories of %d classes (%d steps; plain %d / tls %d / h2 %d; %.1f MB of body through the proxy), %d repeated, %d skipped, %d failed, %.0fs"
-            % (s["ran"], ncls, s["steps"], s["plain"], s["tls"], s["h2"], s["body_bytes"] / 1e6, s["retried"], s["skipped"], s["fails"], g.wall))
-    if s["ran"] == 0 or s["plain"] == 0 or s["tls"] == 0 or s["h2"] == 0:
+    ctx.log("replay: %d histories of %d classes (%d steps; fronts plain %d / tls %d / h2 %d; %d over a TLS upstream; %.1f MB of body through the proxy), %d repeated, %d skipped, %d failed, %.0fs"
+            % (s["ran"], ncls, s["steps"], s["plain"], s["tls"], s["h2"], s.get("up_tls", 0), s["body_bytes"] / 1e6, s["retried"], s["skipped"], s["fails"], g.wall))
+    if s["ran"] == 0 or s["plain"] == 0 or s["tls"] == 0 or s["h2"] == 0 or s.get("up_tls", 0) == 0:
         ctx.inconclusive("replay is vacuous: %s" % json.dumps(s)[:300])
     ctx.cover("replay", traces_validated_against_impl=s["ran"], evaluations=s["steps"], distinct_nontrivial=s["ran"],
               samples=s.get("samples") or [], exhaustive=thorough,
@@ -273,10 +289,20 @@ def run(ctx):
         ctx.log("LEAD: %d of %d exchanges left NO access log line and no request metric (classes %s): ReverseProxy aborts a broken stream with panic(http.ErrAbortHandler), which unwinds HTTPProxy.ServeHTTP past the timer and logger calls; exchanges abandoned before the header are logged as 499 (%d), completed ones normally (%d)"
                 % (s["log_none"], s["ran"], sorted(s.get("log_none_classes") or []), s.get("log_499", 0), s.get("log_other", 0)))
 
+    if bg_rep2 is not None:
+        g2 = bg_rep2.get()
+        if g2 is not None:
+            s2 = g2.summary
+            ctx.log("replay, second pass (fronts rotated): %d histories (plain %d / tls %d / h2 %d; %d over a TLS upstream), %d repeated, %d failed, %.0fs"
+                    % (s2["ran"], s2["plain"], s2["tls"], s2["h2"], s2.get("up_tls", 0), s2["retried"], s2["fails"], g2.wall))
+            ctx.cover("replay-2", traces_validated_against_impl=s2["ran"], evaluations=s2["steps"])
+            ctx.take_failures(g2, "replay")
+            if s2.get("plumbing"):
+                ctx.inconclusive("replay (second pass): harness plumbing trouble (%d): %s" % (s2["plumbing"], (g2.of_kind("oracle") or [{}])[0].get("msg", "")[:500]))
     fs = gf.summary
     if fs.get("plumbing"):
         ctx.inconclusive("free-running exchanges: harness plumbing trouble: %s" % (gf.of_kind("oracle") or [{}])[0].get("msg", "")[:500])
-    if fs["traces"] == 0:
+    if fs["traces"] == 0 or bg_val is None:
         ctx.inconclusive("no free-running exchange could be recorded: %s" % json.dumps(fs)[:300])
         return
     if fs.get("unsettled"):
@@ -284,7 +310,7 @@ def run(ctx):
                 % (fs["unsettled"], (gf.of_kind("unsettled") or [{}])[0].get("msg", "")[:300]))
         if fs["unsettled"] > fs["histories"] // 20:
             ctx.inconclusive("free-running: %d of %d exchanges did not come to rest" % (fs["unsettled"], fs["histories"]))
-    r = validate(ctx, tpath, partial, "traces")
+    r = bg_val.get()
     if r.timed_out or (r.error and not r.violated):
         ctx.inconclusive("Streaming_Trace: %s" % (r.error or "timed out"))
         return
@@ -307,25 +333,7 @@ def run(ctx):
     selftest(ctx, hs, tpath, partial)
 
 
-def models(ctx, bg_safe, bg_live, thorough):
-    ok = True
-    r = bg_safe.get()
-    if clean(ctx, r, "Streaming MC safety"):
-        ctx.log("MC safety: %d states, %d transitions, depth %d, %.0fs" % (r.distinct, r.generated, r.depth, r.wall))
-        ctx.cover("mc-safety", states=r.distinct, transitions=r.generated)
-        if thorough:
-            dead = [a for a in r.coverage0 if a in ENV_ACTIONS]
-            if dead:
-                ctx.inconclusive("Streaming MC: action(s) never taken: %s" % dead)
-                ok = False
-    else:
-        ok = False
-    r = bg_live.get()
-    if clean(ctx, r, "Streaming MC liveness (lock step)"):
-        ctx.log("MC liveness (no fairness on the upstream, lock step): %d states, %.0fs" % (r.distinct, r.wall))
-        ctx.cover("mc-liveness", states=r.distinct, transitions=r.generated)
-    else:
-        ok = False
+def start_wrong(ctx, thorough):
     # the designs that must be rejected, each by the property that names it
     wrong = [
         ("the intervals are swapped (g for SSE, f otherwise)", dict(swap=True), SAFETY, {"CalmDelivered"}),
@@ -348,6 +356,30 @@ def models(ctx, bg_safe, bg_live, thorough):
             k.update(kw)
             bgs.append((what, want, Bg(ctx.tlc, "Streaming_MC", cfg_text="SPECIFICATION Spec\n" + consts("MCLive", **k) + props, workers=2, timeout=400)))
         time.sleep(0.25)
+    return bgs
+
+
+def models(ctx, bg_safe, bg_live, bgs_wrong, thorough):
+    ok = True
+    r = bg_safe.get()
+    if clean(ctx, r, "Streaming MC safety"):
+        ctx.log("MC safety: %d states, %d transitions, depth %d, %.0fs" % (r.distinct, r.generated, r.depth, r.wall))
+        ctx.cover("mc-safety", states=r.distinct, transitions=r.generated)
+        if thorough:
+            dead = [a for a in r.coverage0 if a in ENV_ACTIONS]
+            if dead:
+                ctx.inconclusive("Streaming MC: action(s) never taken: %s" % dead)
+                ok = False
+    else:
+        ok = False
+    r = bg_live.get()
+    if clean(ctx, r, "Streaming MC liveness (lock step)"):
+        ctx.log("MC liveness (no fairness on the upstream, lock step): %d states, %.0fs" % (r.distinct, r.wall))
+        ctx.cover("mc-liveness", states=r.distinct, transitions=r.generated)
+    else:
+        ok = False
+    bgs = bgs_wrong
+    nwrong = sum(1 for w in bgs if w[1])
     for what, want, bg in bgs:
         r = bg.get()
         if want is None:
@@ -361,7 +393,7 @@ def models(ctx, bg_safe, bg_live, thorough):
             ctx.inconclusive("the design in which %s is NOT rejected by %s (violated=%s error=%s)" % (what, sorted(want), v, (r.error or "")[:300]))
             ok = False
     if ok:
-        ctx.log("MC: %d wrong designs rejected, each by the property that names it" % sum(1 for w in wrong if w[3]))
+        ctx.log("MC: %d wrong designs rejected, each by the property that names it" % nwrong)
     return ok
 
 
